@@ -810,11 +810,22 @@ if onp.lib.NumpyVersion(onp.__version__) < "2.0.0":
     defvjp(anp.msort, grad_sort)  # Until multi-D is allowed, these are the same.
 
 
+def partition_permutation(ans, x, axis):
+    # The position in x of each element of ans = np.partition(x, ...).  It is read off the
+    # result itself: np.argpartition may arrange the elements differently from np.partition
+    # (it does for large inputs), and the derivative has to follow the arrangement of ans.
+    order_x = anp.argsort(x, axis, kind="stable")
+    order_ans = anp.argsort(ans, axis, kind="stable")
+    permutation = onp.empty_like(order_x)
+    onp.put_along_axis(permutation, order_ans, order_x, axis)
+    return permutation
+
+
 def grad_partition(ans, x, kth, axis=-1, kind="introselect", order=None):
     # TODO: Cast input with np.asanyarray()
     if len(x.shape) > 1:
         raise NotImplementedError("Gradient of partition not implemented for multi-dimensional arrays.")
-    partition_perm = anp.argpartition(x, kth, axis, kind, order)
+    partition_perm = partition_permutation(ans, x, axis)
     return lambda g: unpermuter(g, partition_perm)
 
 
